@@ -3,6 +3,7 @@ package c06
 import (
 	"fmt"
 	"sort"
+	"strings"
 	"testing"
 
 	modbus "github.com/aldas/go-modbus-client"
@@ -27,12 +28,72 @@ type batchCase struct {
 	// then overwrites both slices. The builder must have taken copies. | 3 adds the first third, asks the builder for its requests, adds
 	// the rest and asks again: the second answer covers all fields.
 	Caller int `json:"caller,omitempty"`
+	// Rebuilds > 0 (a builder that lives long): after one build of the other kind of request, the builder is asked Rebuilds times for this
+	// target; every answer must describe the same requests as the first one, which is judged as usual.
+	Rebuilds int `json:"rebuilds,omitempty"`
+	// Grow > 0 (a builder that grows): the builder is first filled with Fields and asked for its requests (both framings), then Grow more
+	// valid fields are added (synthesised by grown()) and it is asked again; that answer is judged over all Fields+Grow fields.
+	Grow int `json:"grow,omitempty"`
+}
+
+// grown returns the i-th synthesised field of a growing builder: coils and registers alternate, spread over three units of one server.
+func grown(i int) modbus.Field {
+	f := modbus.Field{Name: fmt.Sprintf("g%d", i), ServerAddress: "grow:502", UnitID: uint8(1 + i%3), Address: uint16((i * 7) % 60000), Type: modbus.FieldTypeUint16}
+	if i%2 == 1 {
+		f.Type = modbus.FieldTypeCoil
+	}
+	return f
+}
+
+// violation is what build() panics with when it has seen the property broken itself.
+type violation string
+
+// signature describes a build result independently of transaction ids.
+func signature(reqs []modbus.BuilderRequest, err error, tcp bool) string {
+	if err != nil {
+		return "error: " + err.Error()
+	}
+	var parts []string
+	for _, r := range reqs {
+		fr := append([]byte(nil), r.Bytes()...)
+		if tcp && len(fr) >= 2 {
+			fr[0], fr[1] = 0, 0
+		}
+		parts = append(parts, fmt.Sprintf("%s|%d|%d|%x|%d", r.ServerAddress, r.UnitID, r.StartAddress, fr, len(r.Fields)))
+	}
+	sort.Strings(parts)
+	return strings.Join(parts, ";")
 }
 
 func build(c batchCase) ([]modbus.BuilderRequest, error) {
 	in := make([]modbus.Field, len(c.Fields), len(c.Fields)+4)
 	copy(in, c.Fields)
 	b := modbus.NewRequestBuilder("", 0)
+	if c.Rebuilds > 0 {
+		b.AddAll(in)
+		_, _ = buildTarget(b, (c.Target+4)%8)
+		first, err := buildTarget(b, c.Target)
+		want := signature(first, err, c.Target%2 == 0)
+		for i := 2; i <= c.Rebuilds; i++ {
+			again, aerr := buildTarget(b, c.Target)
+			if got := signature(again, aerr, c.Target%2 == 0); got != want {
+				panic(violation(fmt.Sprintf("build #%d of the same builder for the same target describes other requests than build #1:\n  #1: %s\n  #%d: %s", i, want, i, got)))
+			}
+		}
+		return first, err
+	}
+	if c.Grow > 0 {
+		b.AddAll(in[:len(c.Fields)-c.Grow])
+		_, _ = buildTarget(b, c.Target)
+		_, _ = buildTarget(b, c.Target^1)
+		rest := in[len(c.Fields)-c.Grow:]
+		for len(rest) > 0 {
+			k := min(len(rest), 4099)
+			b.AddAll(rest[:k:k])
+			rest = rest[k:]
+		}
+		return buildTarget(b, c.Target)
+	}
 	if c.Caller == 2 {
 		k := len(in) / 3
 		b.AddAll(in[:k:k]).AddAll(in[k:])
@@ -111,6 +172,13 @@ func runBatch(c batchCase) harness.Result {
 	var reqs []modbus.BuilderRequest
 	var err error
 	var panicked interface{}
+	if c.Grow > 0 {
+		// (the synthesised fields are part of what the final build must cover)
+		c.Fields = append([]modbus.Field(nil), c.Fields...)
+		for i := 0; i < c.Grow; i++ {
+			c.Fields = append(c.Fields, grown(i))
+		}
+	}
 	func() {
 		defer func() {
 			if p := recover(); p != nil {
@@ -119,6 +187,9 @@ func runBatch(c batchCase) harness.Result {
 		}()
 		reqs, err = build(c)
 	}()
+	if v, ok := panicked.(violation); ok {
+		return harness.Fail("%s", string(v))
+	}
 	if panicked != nil {
 		return harness.Fail("builder panicked: %v", panicked)
 	}
@@ -149,6 +220,12 @@ func runBatch(c batchCase) harness.Result {
 		labels = append(labels, "two-AddAll-calls")
 	case 3:
 		labels = append(labels, "built-between-two-AddAll-calls")
+	}
+	if c.Rebuilds > 0 {
+		labels = append(labels, fmt.Sprintf("rebuilt>=%d-times", c.Rebuilds/256*256))
+	}
+	if c.Grow > 0 {
+		labels = append(labels, fmt.Sprintf("grown-by:%d", c.Grow))
 	}
 	{
 		// distinct addresses per target: implementations may switch data structure at a size
@@ -469,3 +546,39 @@ func TestTwoFieldGrid(t *testing.T) {
 }
 
 var _ = sort.Ints
+
+// TestLongLivedBuilder: builders that are asked again and again (around the wraps of 8- and 16-bit counters) and builders that grow
+// by 255..65537 fields between two builds.
+func TestLongLivedBuilder(t *testing.T) {
+	base := []modbus.Field{
+		{Name: "r0", ServerAddress: "a:502", UnitID: 1, Address: 10, Type: modbus.FieldTypeUint16},
+		{Name: "r1", ServerAddress: "a:502", UnitID: 1, Address: 300, Type: modbus.FieldTypeUint32},
+		{Name: "c0", ServerAddress: "a:502", UnitID: 1, Address: 5, Type: modbus.FieldTypeCoil},
+		{Name: "c1", ServerAddress: "b:502", UnitID: 2, Address: 4000, Type: modbus.FieldTypeCoil},
+		{Name: "r2", ServerAddress: "b:502", UnitID: 2, Address: 7, Type: modbus.FieldTypeInt16},
+	}
+	rebuilds := []int{258, 515}
+	grows := []int{255, 256, 65535, 65536, 65537}
+	if harness.Thorough() {
+		rebuilds = []int{258, 515, 65538, 131075}
+		grows = append(grows, 257, 4096, 131072)
+	}
+	idx := 0
+	for target := 0; target < 8; target++ {
+		for _, n := range rebuilds {
+			idx++
+			if harness.Mine(idx) && !chkBatch.Eval(t, batchCase{Fields: base, Target: target, Rebuilds: n}) {
+				return
+			}
+		}
+		for _, g := range grows {
+			idx++
+			if g > 60000 && target%3 != 0 && !harness.Thorough() {
+				continue
+			}
+			if harness.Mine(idx) && !chkBatch.Eval(t, batchCase{Fields: base[:1+target%4], Target: target, Grow: g}) {
+				return
+			}
+		}
+	}
+}
